@@ -14,9 +14,6 @@ theorem frameBits_long (b0 : Nat) (h : (b0 >>> 3) &&& 0x10 ≠ 0) : frameBits b0
 theorem frameBits_short (b0 : Nat) (h : (b0 >>> 3) &&& 0x10 = 0) : frameBits b0 = 56 := by
   simp [frameBits, h]
 
-/-- remainder of a frame as a number -/
-def syndrome (frame : List Nat) : Nat := (polyMod (bits frame)).toNat
-
 /-- the `DF` parser run on the buffered bytes with context `crc`, state dropped
     (the last step of `decodeBuf`) -/
 def parseDF (crc : Nat) (buf : List Nat) : Outcome SerFields :=
@@ -58,135 +55,6 @@ theorem decodeBuf_other (b0 : Nat) (buf : List Nat) (hlen : 8 * buf.length = fra
   rw [← hlen, modesChecksum_eq buf h3 hb]
   simp [hdf, syndrome]
   rfl
-
-/-! ### the `DF` parser reports its context as `icao24` for the address/parity formats -/
-
-theorem bitsBE_df (b0 : Nat) (rest : List Nat) (h : b0 < 256) : bitsBE (b0 :: rest) 0 5 = b0 >>> 3 := by
-  simp only [bitsBE, bitAt, Nat.zero_add, Nat.shiftRight_eq_div_pow]
-  simp
-  omega
-
-theorem enumId5 (b0 : Nat) (rest : List Nat) (h : b0 < 256) :
-    enumId 5 (Rd.init (b0 :: rest)) = .ok (b0 >>> 3, { bytes := b0 :: rest, p := 5, last := 5, nread := 5 }) := by
-  simp [enumId, Model.bits, Rd.init, ceilDiv8, bitsBE_df b0 rest h]
-
-/-- every successful run of `m` ends in a value satisfying `P` -/
-def Ends {α} (P : α → Prop) (m : R α) : Prop := ∀ s v s', m s = .ok (v, s') → P v
-
-theorem Ends_bind {α β} (P : β → Prop) (m : R α) (f : α → R β) (h : ∀ a, Ends P (f a)) :
-    Ends P (m.bind f) := by
-  intro s v s' hr
-  simp only [R.bind] at hr
-  split at hr
-  · exact h _ _ _ _ hr
-  · cases hr
-  · cases hr
-
-theorem Ends_pure {α} (P : α → Prop) (a : α) (h : P a) : Ends P (R.pure a) := by
-  intro s v s' hr
-  simp only [R.pure] at hr
-  cases hr; exact h
-
-/-- the serialised object, if there is one, ends with the field `icao24 = hex6(crc)` -/
-def LastIcao (crc : Nat) (v : SerFields) : Prop :=
-  ∀ fs, v = .ok fs → fs.getLast? = some (fld (key! "icao24") (jhex6 crc))
-
-theorem lastIcao_withFields (crc : Nat) (pre : Fields) (b : SerFields) :
-    LastIcao crc (withFields pre b [fld (key! "icao24") (jhex6 crc)]) := by
-  intro fs h
-  cases b with
-  | error e => simp [withFields, Except.map] at h
-  | ok x =>
-    simp only [withFields, Except.map] at h
-    cases h
-    simp
-
-theorem df_last_icao (crc b0 : Nat) (rest : List Nat) (h : b0 < 256)
-    (hdf : b0 >>> 3 = 0 ∨ b0 >>> 3 = 4 ∨ b0 >>> 3 = 5 ∨ b0 >>> 3 = 16 ∨ b0 >>> 3 = 20 ∨ b0 >>> 3 = 21)
-    (v : SerFields) (s : Rd) (hr : (df crc).run (b0 :: rest) = .ok (v, s)) : LastIcao crc v := by
-  unfold df R.run at hr
-  simp only [bind, R.bind] at hr
-  rw [enumId5 b0 rest h] at hr
-  simp only [pure] at hr
-  rcases hdf with e | e | e | e | e | e <;> rw [e] at hr <;> simp only at hr <;>
-    refine (?_ : Ends (LastIcao crc) _) _ _ _ hr
-  · iterate 3 (apply Ends_bind; intro _)
-    apply Ends_pure; intro fs hfs
-    injection hfs with hfs; subst hfs; simp
-  · iterate 3 (apply Ends_bind; intro _)
-    apply Ends_pure; intro fs hfs
-    injection hfs with hfs; subst hfs; simp
-  · iterate 3 (apply Ends_bind; intro _)
-    apply Ends_pure; intro fs hfs
-    injection hfs with hfs; subst hfs; simp
-  · iterate 9 (apply Ends_bind; intro _)
-    apply Ends_pure; intro fs hfs
-    injection hfs with hfs; subst hfs; simp
-  · iterate 4 (apply Ends_bind; intro _)
-    apply Ends_pure
-    exact lastIcao_withFields crc _ _
-  · iterate 4 (apply Ends_bind; intro _)
-    apply Ends_pure
-    exact lastIcao_withFields crc _ _
-
-/-! ### the overlay on the specification side -/
-
-theorem apField_bits (data : List Nat) (a : Nat) :
-    bits (apField data a) = bitsN 24 ((parity (bits data)).toNat ^^^ a) :=
-  bits_pack _ (by simp [bitsN_length])
-
-theorem pack_length (bs : List Bool) : (pack bs).length = bs.length / 8 := by
-  fun_induction pack bs with
-  | case1 b7 b6 b5 b4 b3 b2 b1 b0 rest ih => simp [ih]; omega
-  | case2 bs hne =>
-    match bs, hne with
-    | [], _ => simp
-    | [_], _ => simp
-    | [_, _], _ => simp
-    | [_, _, _], _ => simp
-    | [_, _, _, _], _ => simp
-    | [_, _, _, _, _], _ => simp
-    | [_, _, _, _, _, _], _ => simp
-    | [_, _, _, _, _, _, _], _ => simp
-    | _ :: _ :: _ :: _ :: _ :: _ :: _ :: _ :: _, hne => exact absurd rfl (hne _ _ _ _ _ _ _ _ _)
-
-theorem apField_length (data : List Nat) (a : Nat) : (apField data a).length = 3 := by
-  rw [apField, pack_length, bitsN_length]
-
-theorem valBE8_lt (b7 b6 b5 b4 b3 b2 b1 b0 : Bool) : valBE [b7, b6, b5, b4, b3, b2, b1, b0] < 256 :=
-  by
-  have := valBE_lt [b7, b6, b5, b4, b3, b2, b1, b0]
-  simpa using this
-
-theorem pack_bytes (bs : List Bool) : Bytes (pack bs) := by
-  fun_induction pack bs with
-  | case1 b7 b6 b5 b4 b3 b2 b1 b0 rest ih =>
-    intro x hx
-    simp only [List.mem_cons] at hx
-    rcases hx with rfl | hx
-    · exact valBE8_lt ..
-    · exact ih x hx
-  | case2 bs hne => intro x hx; simp at hx
-
-theorem encodeAP_bytes (data : List Nat) (a : Nat) (hd : Bytes data) : Bytes (encodeAP data a) := by
-  intro x hx
-  simp only [encodeAP, List.mem_append] at hx
-  rcases hx with hx | hx
-  · exact hd x hx
-  · exact pack_bytes _ x hx
-
-theorem encodeAP_length (data : List Nat) (a : Nat) : (encodeAP data a).length = data.length + 3 := by
-  simp [encodeAP, apField_length]
-
-/-- **the overlay is undone by the remainder**: whatever the data, whatever the address -/
-theorem syndrome_encodeAP (data : List Nat) (a : Nat) (ha : a < 2 ^ 24) :
-    syndrome (encodeAP data a) = a := by
-  unfold syndrome encodeAP
-  rw [bits_append, apField_bits, polyMod_append24 _ _ (by simp [bitsN_length]), BitVec.toNat_xor,
-    polyMod_short _ (by simp [bitsN_length]), valBE_bitsN]
-  have hp := (parity (bits data)).isLt
-  generalize (parity (bits data)).toNat = p at *
-  rw [Nat.mod_eq_of_lt (Nat.xor_lt_two_pow hp ha), ← Nat.xor_assoc, Nat.xor_self, Nat.zero_xor]
 
 /-! ### `Message::try_from` on a frame of the prescribed length -/
 
